@@ -18,12 +18,18 @@ CHECKS = {
    "No string of the lenses or of the deterministic pumping family (up to 1 MiB) makes from_str, to_string, Debug, clone, into_builder, build or the typed checksum accessors panic, overflow or hang, for all three parsable instantiations."),
  "C07": ("exploration", "3", "bounded-exhaustive input enumeration (dot-segment and separator lenses); segment oracle computed from the raw input",
    "For every accepted string of the dot-segment/separator lenses the reported namespace and subpath segments are exactly the decoded non-skipped raw pieces; no empty, '.' or '..' subpath segment, no empty namespace segment."),
+ "C09": ("model_checking", "3", "explicit-state breadth-first search over builder call histories on the real builder next to a reference record, plus exhaustive product of final states; oracle on every transition and state",
+   "Every builder call sequence up to the stated depth over the 17-string value universe (from every new(type,name) and from into_builder() of parsed values), and every final state of the namespace x name x version x subpath x type x qualifier product: public fields equal the reference record after every call, build() succeeds exactly when the reference predicate holds (with the matching error), accessors return what was set, and the string form re-parses to the same fields. String and PackageType."),
  "C10": ("exploration", "3", "bounded-exhaustive input enumeration; rebuild-identity oracle",
    "For every accepted string of the lenses, p.clone().into_builder().build() == Ok(p) with the identical string, for String, SmallString and PackageType."),
  "C03": ("exploration", "3", "exhaustive sweep over all 1,112,064 Unicode scalar values and all ASCII pairs in every component position (builder) plus bounded-exhaustive input enumeration (parser); independent renderer as oracle",
    "to_string() equals an independent renderer (escape table transcribed from the property text) for every scalar value alone and embedded, and every ASCII pair, in each of the five component positions, for the listed type parameters and package types, and for every value the parser returns on the token lenses; output is printable ASCII."),
  "C08": ("exploration", "3", "exhaustive sweep over all Unicode scalar values and all short strings over a name alphabet, both entry points; bounded-exhaustive typed-vs-untyped differential on the token lenses",
    "For every scalar value (as 'c' and 'xcx') and every name up to the bound over {a A 1 - _ . E-acute titlecase-dz}, the seven types apply exactly the documented name rule, identically from parser and builder; maven namespaces without a segment are refused; on every lens node the typed PURL has the namespace/version/qualifiers/subpath of the type-agnostic one and refuses unknown types with UnsupportedType."),
+ "C11": ("model_checking", "3", "explicit-state breadth-first search to the fixpoint of reachable contents, real Qualifiers next to a BTreeMap; oracle on every transition; all pairs of reached contents compared",
+   "All reachable contents of the key/value universe (4^5 quick, 5^6 thorough) x every public operation of Qualifiers/Entry/OccupiedEntry/VacantEntry/Iter/IterMut and the typed accessors: every return value, iteration order from both ends, len, lookups by every key spelling (including invalid keys and the documented Index panic) agree with the reference map; equal contents are ==, hash alike and compare Equal; different contents order lexicographically."),
+ "C12": ("model_checking", "3", "explicit-state breadth-first search to a fixpoint over Checksum insert/insert_raw/remove histories next to a sorted reference map; bounded-exhaustive checksum lens through the parser",
+   "All reachable checksum contents over the algorithm/value universe x every insert/insert_raw/remove: entries, get/get_raw/get_value/decode, text form (sorted, lower-case hex, refused iff malformed hex), text->typed round trip, replacement in another letter case; every accepted string of the checksum lens carries the canonical text and reads back through the typed accessor."),
  "C13": ("exploration", "3", "bounded-exhaustive input enumeration; differential oracle across type parameters",
    "Every string of the lenses gives the same acceptance, error text, accessors and canonical string as GenericPurl<String> and GenericPurl<SmallString>."),
  "C15": ("exploration", "3", "exhaustive enumeration of case variants, short strings over the name letters plus look-alikes, and every scalar value substituted/inserted at every position of every name",
